@@ -117,6 +117,20 @@ Definition promised : list rule := [
   mkRule "channel::state_broadcast::if_alloc::shared::StateReceiveFuture" Send false [M_sync; T_send]
 ].
 
+(* [guarded]: traits whose methods hand out a type with an UNCONDITIONAL unsafe Send impl; every
+   impl of such a trait must demand the listed bound of the implementing type's parameter
+   (`impl Timer for GenericTimerService<M>` needs `M: Sync`, because `TimerFuture: Send`
+   holds for every service the future may point to) *)
+Definition guarded : list (string * (nat * trait)) := [("Timer", (0, Sync))].
+
+Definition producers_guarded (tis : list timpl) : bool :=
+  forallb (fun g =>
+     (* the trait is implemented at all, and every impl carries the bound *)
+     existsb (fun ti => String.eqb (t_trait ti) (fst g)) tis &&
+     forallb (fun ti => negb (String.eqb (t_trait ti) (fst g)) ||
+                        existsb (fun b => Nat.eqb (fst b) (fst (snd g)) && trait_eqb (snd b) (snd (snd g))) (t_bounds ti)) tis)
+    guarded.
+
 Section Check.
   Variable structs : list sdef.
   Variable impls : list idef.
